@@ -128,6 +128,37 @@ def run(rep):
                 rep.finding_or_violation(key, '%s: after a FAILED to_string(%s) the removal of the child leaves (ordered, insertion, next to_string) = %s; without the failed call %s' % (
                     sa[i]['type'], '', va, vb), {'type': sa[i]['type'], 'ops': sa[i]['ops'], 'without_the_failed_call': sb[i]['ops'], 'observed': va, 'expected': vb})
         rep.coverage['failed_to_string_then_remove'] = n_s
+        # scripted (3): a failing to_string() just before the add that makes the matcher re-arrange what is attached (c12's orders), and after
+        # every other add of such an order; the final to_string() and the views against the same order without any failing call
+        from . import c12 as _c12
+        pcs = [c for c in _c12.perm_cases(g, rep.seed, 4 if quick else 5, 4 if quick else 20) if c['perm'] != c['arr']]
+        rng.shuffle(pcs)
+        pcs = pcs[:500 if quick else 6000]
+        ta, tb = [], []
+        for c in pcs:
+            adds = [[0, 'a', o[1]] for o in c['ops'][:-1]]
+            k = rng.choice([len(adds) - 1] * 3 + list(range(1, len(adds))))
+            ta.append({'multi': [c['type']], 'type': c['type'], 'unchecked_children': True, 'ops': adds[:k] + [[0, 's', 0]] + adds[k:] + [[0, 's', 0]]})
+            tb.append({'multi': [c['type']], 'type': c['type'], 'unchecked_children': True, 'ops': adds + [[0, 's', 0]]})
+        xa_ = _impl.run_cases(ta)
+        xb_ = _impl.run_cases(tb)
+        n_t = 0
+        seen_t = set()
+        for ca, cb, xa, xb in zip(ta, tb, xa_, xb_):
+            if isinstance(xa, dict) or isinstance(xb, dict) or len(xa) != len(ca['ops']) or len(xb) != len(cb['ops']):
+                continue
+            k = [i for i, o in enumerate(ca['ops']) if o[1] == 's'][0]
+            if hist.norm_st(xa[k]['st']) == 'ok':
+                continue
+            n_t += 1
+            fa, fb = xa[-1], xb[-1]
+            va = (fa.get('ord'), fa.get('uno'), hist.norm_st(fa['st']))
+            vb = (fb.get('ord'), fb.get('uno'), hist.norm_st(fb['st']))
+            if va != vb and ca['type'] not in seen_t:
+                seen_t.add(ca['type'])
+                rep.finding_or_violation('C10:to_string-then-add:' + ca['type'], '%s: with a FAILED to_string() after add #%d the history ends in (ordered, insertion, to_string) = %s; without the failed call %s' % (
+                    ca['type'], k, va, vb), {'type': ca['type'], 'ops': ca['ops'], 'without_the_failed_call': cb['ops'], 'observed': va, 'expected': vb})
+        rep.coverage['failed_to_string_inside_rearranging_orders'] = n_t
         seen = set()
         for c, oi, why, predicted in found:
             key = 'C10:' + matcher.cause_key(c['type'], c['ops'][:oi + 1])
